@@ -7,9 +7,9 @@
 //    exit() and right before an oracle trap.
 //  * oracle failure: print the message, dump the counters, __builtin_trap();
 //    libFuzzer then saves the input as a crash- artefact.
-//  * replay: `<target> --prop Cxx --replay FILE` (the harness CLI) is rewritten
-//    in LLVMFuzzerInitialize to `<target> FILE`; FILE is either a raw artefact or
-//    the JSON wrapper written by tools/fuzzshard.py ({"case":{"hex":"..."}}).
+//  * replay: `<target> --prop Cxx --replay FILE` (the harness CLI): a raw artefact
+//    becomes a single-input libFuzzer run; the bytes of the JSON wrapper written by
+//    tools/fuzzshard.py ({"case":{"hex":"..."}}) are run directly from memory.
 #pragma once
 #include "common/json.hpp"
 #include "common/refchess.hpp"
@@ -124,35 +124,47 @@ inline bool fromHex(const std::string& h, std::string& out) {
     return true;
 }
 
-// Call from LLVMFuzzerInitialize.  Rewrites `--replay FILE` into a plain
-// single-input run; unpacks the JSON wrapper into a temporary raw file.
+// Call first in LLVMFuzzerInitialize.  Rewrites `--replay FILE` into a plain
+// single-input run for a raw artefact; the bytes of a JSON wrapper are kept in
+// memory and run by runPendingReplay() (no temporary file that a crashing replay
+// would leave behind).
+inline std::string& pendingReplay() { static std::string s; return s; }
+inline bool& hasPendingReplay() { static bool b = false; return b; }
 inline void rewriteArgs(int* argc, char*** argv) {
     std::string file;
     for (int i = 1; i < *argc; i++)
         if (!strcmp((*argv)[i], "--replay") && i + 1 < *argc) file = (*argv)[i + 1];
     if (file.empty()) return;
-    std::string raw = file;
     try {
         vj::Value r = vj::parseFile(file);
         if (r.t == vj::Value::Obj && r.has("case") && r.at("case").has("hex")) {
             std::string bytes;
-            if (fromHex(r.at("case").getStr("hex"), bytes)) {
-                static std::string tmp = "/tmp/verif-fuzz-replay-" + std::to_string(getpid()) + ".bin";
-                FILE* f = fopen(tmp.c_str(), "wb");
-                if (f) { fwrite(bytes.data(), 1, bytes.size(), f); fclose(f); raw = tmp; atexit([]() { unlink(tmp.c_str()); }); }
-            }
+            if (fromHex(r.at("case").getStr("hex"), bytes)) { pendingReplay() = bytes; hasPendingReplay() = true; }
         }
     } catch (...) {
         // not JSON: a raw artefact
     }
     static std::vector<std::string> store;
     static std::vector<char*> ptrs;
-    store = {(*argv)[0], "-exact_artifact_path=/dev/null", "-timeout=600", raw};
+    store = {(*argv)[0], "-exact_artifact_path=/dev/null", "-timeout=600", file};
     ptrs.clear();
     for (auto& s : store) ptrs.push_back(const_cast<char*>(s.c_str()));
     ptrs.push_back(nullptr);
     *argc = (int)store.size();
     *argv = ptrs.data();
+}
+} // namespace fz
+extern "C" int LLVMFuzzerTestOneInput(const uint8_t* data, size_t size);
+namespace fz {
+// Call last in LLVMFuzzerInitialize (after the target's own initialisation).
+inline void runPendingReplay() {
+    if (!hasPendingReplay()) return;
+    const std::string& b = pendingReplay();
+    fprintf(stderr, "replaying %zu bytes from the JSON wrapper\n", b.size());
+    LLVMFuzzerTestOneInput((const uint8_t*)b.data(), b.size());
+    fprintf(stderr, "REPLAY-PASS (no crash, no oracle failure)\n");
+    fflush(stderr);
+    exit(0);
 }
 
 // ---- small helpers on refchess ---------------------------------------------------
